@@ -195,6 +195,11 @@ def specOnCert (der : Bytes) (eff : V1.CertificateContent) (cfgSubject : String)
             | some 0 => c.sigAlg.params.map Tlv.enc == some [5, 0]
             | some _ => c.sigAlg.params.isNone
             | none => false)),
+        ("C02: keyUsage is not a DER named bit list (trailing zero bits and octets must be removed; no flags = no octets)",
+          (eff.extensions.zip c.tbs.extensions).all fun (cfgE, ce) =>
+            match cfgE.content with
+            | .keyUsage (some _) => !cfgE.raw.isEmpty || (SpecExt.decKeyUsage ce.value).isSome
+            | _ => true),
         ("C02: time form (UTCTime through 2049, GeneralizedTime from 2050)",
           let okTag (unix : Int) (tag : UInt8) := let y := (Calendar.wallOf unix 0).year; if 1950 ≤ y ∧ y < 2050 then tag == 0x17 else tag == 0x18
           okTag c.tbs.notBefore c.tbs.notBeforeTag && okTag c.tbs.notAfter c.tbs.notAfterTag),
@@ -241,6 +246,8 @@ def specOnCert (der : Bytes) (eff : V1.CertificateContent) (cfgSubject : String)
           !hasManip || eff.manipulations.tbsSignature.isSome || (Gen.sigAlgTable[eff.signatureAlgorithm]?.map (·.1)) == some c.tbs.sigAlg.oid),
         ("C19: a field no manipulation names differs from what the configuration without manipulations produces (version)",
           !hasManip || eff.manipulations.version.isSome || c.tbs.version == 2),
+        ("C08: the certificate of an entity with a profile does not carry the profile-merged extension list (inherited ones first, overrides in place)",
+          eff.profile.isEmpty || c.tbs.extensions.map (fun e => (e.oid, e.critical)) == eff.extensions.map (fun e => (e.oid.getD [], e.critical))),
         ("C06: extension OIDs, order or critical flags differ from the effective configuration",
           c.tbs.extensions.map (fun e => (e.oid, e.critical)) == eff.extensions.map (fun e => (e.oid.getD [], e.critical)))
       ]
@@ -339,7 +346,10 @@ def replayRun (tz : Int) (files : List FileJ) (strat : Nat) (fault : Option Faul
   -- "now" as read at parse time: observed through the certificate of a planned entity; bracketed below
   let nowOf (alias_ path : String) : Int :=
     match finalCert path with
-    | some c => if planned.contains alias_ then c.tbs.notBefore else o.t0
+    | some c =>
+      -- only a certificate written by *this* run shows this run's clock (a planned entity whose generation
+      -- failed still has its old certificate)
+      if planned.contains alias_ && o.t0 - 1 ≤ c.tbs.notBefore && c.tbs.notBefore ≤ o.t1 then c.tbs.notBefore else o.t0
     | none => o.t0
   let (s0, dup, parseIssues) := importState tz files pre ranks keys nowOf
   let ents := s0.entities
@@ -374,7 +384,7 @@ def replayRun (tz : Int) (files : List FileJ) (strat : Nat) (fault : Option Faul
   let effAt (alias_ : String) : Except String V1.CertificateContent :=
     match (s0.find alias_).bind (fun e => finalCert e.configPath) with
     | some c =>
-      if planned.contains alias_ then Db.validateAndMerge (importState tz files pre ranks keys (fun _ _ => c.tbs.notBefore)).1 alias_
+      if planned.contains alias_ && o.t0 - 1 ≤ c.tbs.notBefore && c.tbs.notBefore ≤ o.t1 then Db.validateAndMerge (importState tz files pre ranks keys (fun _ _ => c.tbs.notBefore)).1 alias_
       else Db.validateAndMerge s0 alias_
     | none => Db.validateAndMerge s0 alias_
   -- BulkUpdate, replayed in plan order
@@ -489,7 +499,8 @@ def replayRun (tz : Int) (files : List FileJ) (strat : Nat) (fault : Option Faul
             if self then (match realKey pemJ with | some k => some k | none => some cj.subjectKey.toNat)
             else match realKey issuerPem with | some k => some k | none => (issuerPem.bind (·.cert)).map (·.subjectKey.toNat)
           if !ownManip && (match realKey pemJ with | some k => k != cj.subjectKey.toNat | none => false) then
-            specFails := specFails ++ ["C05: certificate does not carry the public key of the stored private key"]
+            specFails := specFails ++ ["C05: certificate does not carry the public key of the stored private key",
+              "C01: a certificate issued in this run does not carry the public key of the key that signs for this entity: nothing it issues (itself included) verifies under it"]
           let m := eff.manipulations
           let hasManip := m.version.isSome || m.signatureAlgorithm.isSome || m.signatureValue.isSome || m.tbsSignature.isSome || m.tbsPublicKeyAlgorithm.isSome || m.tbsPublicKey.isSome
           let eff' := match (s.find pl.alias) with | some x => x.content | none => eff
@@ -552,6 +563,6 @@ def opPki : OpFn := fun view inp out => do
   let v := replayRun tz files strat fault pre post (ranksOf out "ranksPre") keys o
   let seen := v.allClauses.find? (viewAccepts view)
   pure { corr := v.corr, spec := seen.isNone && (v.spec || !viewAccepts view v.clause), clause := seen.getD v.clause,
-         nontrivial := if view == "C09" then hasSubjectConstraint files else !v.planned.isEmpty, branch := v.branch, model := v.detail, feat := v.feat }
+         nontrivial := if view == "C09" then hasSubjectConstraint files else if view == "C08" then (files.any (·.kind == "profile")) && !v.planned.isEmpty else !v.planned.isEmpty, branch := v.branch, model := v.detail, feat := v.feat }
 
 end Driver
